@@ -37,6 +37,14 @@ type netProto struct {
 	inner     func(k *kernel.K, valid []byte, f func(m mutant))
 	// big makes a valid message whose repeated part has n elements (the scale phase of runNet)
 	big func(shape, n int) []byte
+	// newRecv makes an empty message value of the protocol whose Decode method is the real decoder:
+	// one such value is reused for every input of a run (a receiver's history must not matter)
+	newRecv func() recv
+}
+
+type recv interface {
+	Decode(in []byte) error
+	Encode() ([]byte, error)
 }
 
 // ---- large valid messages: cost must stay proportional to the length ---------
@@ -359,7 +367,7 @@ var netProtos = []netProto{
 	{name: "block-announce",
 		build:  func(k *kernel.K, l string) []byte { return mustEnc(blockAnnounceOf(k, l)) },
 		decode: func(in []byte) (any, error) { return network.VerifBytesDecodeBlockAnnounceMessage(in) },
-		encode: encodeMsg, typ: reflect.TypeOf(network.BlockAnnounceMessage{})},
+		encode: encodeMsg, typ: reflect.TypeOf(network.BlockAnnounceMessage{}), newRecv: func() recv { return &network.BlockAnnounceMessage{} }},
 	{name: "block-announce-handshake",
 		build: func(k *kernel.K, l string) []byte {
 			return mustEnc(&network.BlockAnnounceHandshake{Roles: common.NetworkRole(k.Choose(6, l+"role")), BestBlockNumber: uint32(u64(k, l+"num")),
@@ -386,7 +394,7 @@ var netProtos = []netProto{
 	{name: "block-request", isPB: true,
 		build:  func(k *kernel.K, l string) []byte { return mustEnc(blockRequestOf(k, l)) },
 		decode: func(in []byte) (any, error) { return network.VerifBytesDecodeSyncMessage(in, "", true) },
-		encode: encodeMsg, inner: innerBlockRequest},
+		encode: encodeMsg, inner: innerBlockRequest, newRecv: func() recv { return &messages.BlockRequestMessage{} }},
 	{name: "block-response", isPB: true,
 		build: func(k *kernel.K, l string) []byte { return mustEnc(blockResponseOf(k, l)) },
 		decode: func(in []byte) (any, error) {
@@ -394,7 +402,7 @@ var netProtos = []netProto{
 			err := m.Decode(in)
 			return m, err
 		},
-		encode: encodeMsg, giant: protoGiantBlockResponse, declShort: protoDeclShortBlockResponse, inner: innerBlockResponse, big: bigBlockResponse},
+		encode: encodeMsg, giant: protoGiantBlockResponse, declShort: protoDeclShortBlockResponse, inner: innerBlockResponse, big: bigBlockResponse, newRecv: func() recv { return &messages.BlockResponseMessage{} }},
 	{name: "grandpa",
 		build: func(k *kernel.K, l string) []byte {
 			_, m := grandpaMsgOf(k, l)
@@ -404,7 +412,7 @@ var netProtos = []netProto{
 			}
 			return b
 		},
-		decode: decodeGrandpaNet, encode: encodeGrandpaNet, typ: tGrandpaMessage, big: bigGrandpa},
+		decode: decodeGrandpaNet, encode: encodeGrandpaNet, typ: tGrandpaMessage, big: bigGrandpa, newRecv: func() recv { return &network.ConsensusMessage{} }},
 	{name: "grandpa-handshake",
 		build: func(k *kernel.K, l string) []byte {
 			return mustEnc(&grandpa.GrandpaHandshake{Role: common.NetworkRole(k.Choose(6, l+"role"))})
@@ -493,6 +501,35 @@ func runNet(k *kernel.K) {
 			s[1]++
 		}
 		stats[m.kind] = s
+	}
+	if p.newRecv != nil {
+		// a second look at every input through ONE message value that is decoded into again and again,
+		// starting with the other valid message: what it says afterwards must not depend on what it held before
+		reused := p.newRecv()
+		guard(func() { _ = reused.Decode(other) })
+		plain := each
+		each = func(m mutant) {
+			plain(m)
+			fresh := p.newRecv()
+			var ef, er error
+			var bf, br []byte
+			var e1, e2 error
+			if pn, _, _ := guard(func() {
+				ef = fresh.Decode(m.data)
+				er = reused.Decode(m.data)
+				if ef == nil && er == nil {
+					bf, e1 = fresh.Encode()
+					br, e2 = reused.Encode()
+				}
+			}); pn {
+				return // panics are reported by the first look
+			}
+			if (ef == nil) != (er == nil) || (ef == nil && ((e1 == nil) != (e2 == nil) || !stdbytes.Equal(bf, br))) {
+				c.report("reencode", "decode-depends-on-receiver-history:"+p.name, "%s: %s %s: input %s decodes differently into a message value that held another message before: fresh err=%v re-encodes to %s, reused err=%v re-encodes to %s",
+					p.name, m.kind, m.detail, hx(m.data), ef, hx(bf), er, hx(br))
+			}
+		}
+		k.Probe("reused-receiver:" + p.name)
 	}
 	forEachMutant(k, mutCfg{enc: enc, other: other, compacts: comp, maxFlips: 64}, each)
 	if p.isPB {
